@@ -76,6 +76,35 @@ def cases(ctx):
     for _ in range(ctx.n(3000, 300000)):
         k = rng.randrange(0, 21 * 10 ** 14 + 1)
         fl.append((k / 1e8, k))
+    # floats that ordinary arithmetic on eight-decimal amounts produces: sums and differences (one rounding away from
+    # the eight-decimal value, like the trap 0.1 + 0.2) and the neighbours a few ulps either side.  Kept only when the
+    # exact value of the float is within 0.3 satoshi of k, so that one binary64 rounding of x * 1e8 (at most 0.125
+    # satoshi below 21e6 BTC) cannot carry it across the half-way point: those have a definite answer, k.
+    from fractions import Fraction
+    import math
+    def fnear(x, k): return 0 <= x and abs(Fraction(x) * 10 ** 8 - k) < Fraction(3, 10)
+    for _ in range(ctx.n(3000, 300000)):
+        mode = rng.randrange(4)
+        if mode == 0:      # two-decimal sums / differences (0.01 + 0.09, 0.3 - 0.1, 1.0 - 0.9 …)
+            a, b = rng.randrange(0, 201), rng.randrange(0, 201)
+            if rng.random() < 0.5: x, k = a / 100 + b / 100, (a + b) * 10 ** 6
+            else: a, b = max(a, b), min(a, b); x, k = a / 100 - b / 100, (a - b) * 10 ** 6
+        elif mode == 1:    # eight-decimal sums / differences over the whole range
+            a, b = rng.randrange(0, 10 ** rng.randrange(1, 16)), rng.randrange(0, 10 ** rng.randrange(1, 16))
+            if rng.random() < 0.5: x, k = a / 1e8 + b / 1e8, a + b
+            else: a, b = max(a, b), min(a, b); x, k = a / 1e8 - b / 1e8, a - b
+            if k > 21 * 10 ** 14: continue
+        elif mode == 2:    # products by a small integer (fee rate times size and the like)
+            a, m = rng.randrange(0, 10 ** rng.randrange(1, 12)), rng.randrange(1, 1000)
+            x, k = (a / 1e8) * m, a * m
+            if k > 21 * 10 ** 14: continue
+        else:              # neighbours, 1..3 ulps away
+            k = rng.randrange(0, 21 * 10 ** rng.choice([2, 6, 8, 10, 12, 14]) + 1)
+            x = k / 1e8
+            for _ in range(rng.randrange(1, 4)): x = math.nextafter(x, rng.choice([0.0, 1e9]))
+        if fnear(x, k):
+            ctx.count('sat_f64_arith')
+            fl.append((x, k))
     for x, k in fl:
         bits = struct.unpack('<Q', struct.pack('<d', x))[0]
         ctx.count('sat_f64')
